@@ -126,6 +126,63 @@ UNITS.append(Unit('blk.clear', ('CdnsBlock::clear', None), contract=clear_contra
                   auto_inline=[r'[A-Za-z]+__ctor__\w+', r'[A-Za-z]+__default'],
                   note='whatever the block holds (also tables populated while no item is buffered): every table and every item array is empty afterwards, statistics and earliest time reset'))
 
+# ---------------------------------------------------------------- table accessors of CdnsBlock (C03: indices from a file are bounds-checked; C11: wrappers de-duplicate)
+def _eq(ast, L, kind, rec, a, b):
+    from bt_units import val_eq
+    if kind == 'data':
+        return '(%s.id == %s.id && %s.len == %s.len)' % (a, b, a, b)
+    if kind == 'list':
+        return '(%s.n == %s.n && %s.wi == %s.wi && %s.wv == %s.wv)' % (a, b, a, b, a, b)
+    return val_eq(ast, L, rec, a, b)
+
+
+ACCESS = [('ip_address', 'm_ip_address', 'StringItem', 'data'), ('classtype', 'm_classtype', 'ClassType', None), ('name_rdata', 'm_name_rdata', 'StringItem', 'data'),
+          ('qr_signature', 'm_qr_sig', 'QueryResponseSignature', None), ('question_list', 'm_qlist', 'IndexListItem', 'list'), ('question', 'm_qrr', 'Question', None),
+          ('rr_list', 'm_rrlist', 'IndexListItem', 'list'), ('rr', 'm_rr', 'RR', None), ('malformed_message_data', 'm_malformed_message_data', 'MalformedMessageData', None)]
+
+
+def get_contract(tab, rec, sub):
+    def gen(ast, L, tf):
+        stored = '$this->%s.wv%s' % (tab, '.' + sub if sub else '')
+        return '''
+__CPROVER_requires(__CPROVER_r_ok($this, sizeof(*$this)) && g_exc == 0)
+__CPROVER_assigns(bt_%(r)s__cur, g_exc)
+__CPROVER_ensures(g_exc == 0 || g_exc == EXC_runtime_error)
+__CPROVER_ensures((g_exc == 0) == ((unsigned long)$1 < $this->%(t)s.n))
+__CPROVER_ensures((g_exc == 0 && (unsigned long)$1 == $this->%(t)s.wi) ==> %(eq)s)
+''' % {'r': rec, 't': tab, 'eq': _eq(ast, L, sub, rec, '$ret', stored)}
+    return gen
+
+
+def addw_contract(tab, rec, sub):
+    def gen(ast, L, tf):
+        stored = '$this->%s.wv%s' % (tab, '.' + sub if sub else '')
+        return '''
+__CPROVER_requires(__CPROVER_w_ok($this, sizeof(*$this)) && __CPROVER_r_ok($1, sizeof(*$1)) && g_exc == 0)
+__CPROVER_requires($this->%(t)s.n < (1UL << 31) && g_bt_finds == 0 && g_bt_adds == 0)
+__CPROVER_assigns($this->%(t)s, bt_%(r)s__cur, g_bt_finds, g_bt_adds, g_bt_key)
+__CPROVER_ensures(g_exc == 0 && (unsigned long)$ret < $this->%(t)s.n && g_bt_finds == 1 && g_bt_key == (void *)$1)
+__CPROVER_ensures(g_bt_present ==> ($ret == (unsigned int)g_bt_pidx && $this->%(t)s.n == @N0 && g_bt_adds == 0))
+__CPROVER_ensures(!g_bt_present ==> ($ret == (unsigned int)@N0 && $this->%(t)s.n == @N0 + 1 && g_bt_adds == 1))
+__CPROVER_ensures((!g_bt_present && $this->%(t)s.wi == @N0) ==> %(eq)s)
+''' % {'r': rec, 't': tab, 'eq': _eq(ast, L, sub, rec, stored, '(*$1)')}
+    return gen
+
+
+ACC_STUBS = ['BlockTable_[A-Za-z]+__(size|op_index|find|add|add_value__p_[A-Za-z]+)', 'seq_[A-Za-z0-9_]+__(assign|size)', 'cstring__[a-z]+']
+ACC_AUTO = [r'[A-Za-z]+__ctor__\\w+', r'[A-Za-z]+__default']
+for nm, tab, rec, sub in ACCESS:
+    argt = {'data': 'cstring', 'list': 'struct seq_u32'}.get(sub, 'struct ' + rec)
+    UNITS.append(Unit('blk.get_' + nm, ('CdnsBlock::get_' + nm, None), contract=get_contract(tab, rec, sub), prelude=P, pre_c=PRE_C, extern_records=EXT, stubs=ACC_STUBS,
+                      auto_inline=ACC_AUTO, setup='  static struct CdnsBlock obj; unsigned int a_i;\n', args=['&obj', 'a_i'], props=['C03', 'C01'], timeout=300,
+                      post='  if (g_exc != 0) { CANARY("out-of-range index reachable"); }',
+                      note='any index (e.g. one read from a file): the entry is returned iff the index is below the table size, otherwise std::runtime_error; the returned value is the stored one'))
+    UNITS.append(Unit('blk.add_' + nm, ('CdnsBlock::add_' + nm, None), contract=addw_contract(tab, rec, sub), prelude=P, pre_c=PRE_C, extern_records=EXT, stubs=ACC_STUBS,
+                      auto_inline=ACC_AUTO, ghost=[('unsigned long', 'N0', '$this->%s.n' % tab)],
+                      setup='  static struct CdnsBlock obj; static %s a_v;\n  __CPROVER_assume(obj.%s.n < (1UL << 31));\n  g_bt_finds = 0; g_bt_adds = 0;\n' % (argt, tab), args=['&obj', '&a_v'],
+                      props=['C11', 'C01'], timeout=300, post='  if (g_bt_present) { CANARY("equal entry present reachable"); }',
+                      note='the table is searched once for the given value; present => its index and no growth; absent => appended at index old size with exactly the given value'))
+
 from item_units import TRUSTED_BASE as _TB, ASSUMPTIONS as _AS
 TRUSTED_BASE = _TB + ['A7 BlockTable<T> as seen by CdnsBlock: a sequence in index order with size(); std::unordered_map iteration visits every entry once']
 ASSUMPTIONS = _AS + ['table and array sizes < 2^56', 'ticks_per_second >= 1']
